@@ -250,6 +250,63 @@ theorem alloc_bounded_progressive (hd : Ihdr) (len : Nat) (hw : 1 ≤ hd.width) 
       _ ≤ hd.width * hd.height * hd.bpp := Nat.mul_le_mul (Nat.mul_le_mul hw (Nat.le_refl _)) hb
   omega
 
+theorem bitmap_le (bpp pw ph : Nat) : bitmapSize bpp pw ph ≤ pw * ph * bpp / 8 + ph := by
+  unfold bitmapSize
+  have h1 : (pw * bpp + 7) / 8 * ph ≤ ((pw * bpp + 7) * ph) / 8 := by
+    rw [Nat.le_div_iff_mul_le (by decide : 0 < 8)]
+    have := Nat.div_mul_le_self (pw * bpp + 7) 8
+    calc (pw * bpp + 7) / 8 * ph * 8
+        = (pw * bpp + 7) / 8 * 8 * ph := by rw [Nat.mul_right_comm]
+      _ ≤ (pw * bpp + 7) * ph := Nat.mul_le_mul_right _ this
+  have h2 : (pw * bpp + 7) * ph = pw * ph * bpp + 7 * ph := by
+    rw [Nat.add_mul, Nat.mul_right_comm]
+  rw [h2] at h1
+  omega
+
+theorem area_mono (bpp pw ph w h : Nat) (h1 : pw ≤ w) (h2 : ph ≤ h) : pw * ph * bpp / 8 ≤ w * h * bpp / 8 :=
+  Nat.div_le_div_right (Nat.mul_le_mul_right _ (Nat.mul_le_mul h1 h2))
+
+/-- one pass of the interlaced size computation -/
+theorem pass_term_le (bpp pw ph w h : Nat) (h1 : pw ≤ w) (h2 : ph ≤ h) :
+    bitmapSize bpp pw ph + ph ≤ w * h * bpp / 8 + 2 * h := by
+  have := bitmap_le bpp pw ph
+  have := area_mono bpp pw ph w h h1 h2
+  omega
+
+/-- **Interlaced headers too**: if the size guard lets the header through, the buffer sized from it
+    is at most `119 · 1032 · len + 98` bytes (seven passes, each at most the whole image plus two
+    bytes per row; a crude but fixed multiple of the bytes present). -/
+theorem alloc_bounded_interlaced (hd : Ihdr) (len : Nat) (hw : 1 ≤ hd.width) (hb : 1 ≤ hd.bpp)
+    (hg : sizeGuard hd len = true) (hil : hd.interlaced = true) :
+    rawDataSize hd.width hd.height hd.bpp hd.interlaced ≤ 119 * (len * 1032) + 98 := by
+  simp only [sizeGuard, decide_eq_true_eq] at hg
+  rw [hil]
+  simp only [rawDataSize, Bool.not_true, Bool.false_eq_true, if_false]
+  generalize hG : hd.width * hd.height * hd.bpp / 8 = G at hg
+  have hh : hd.height ≤ hd.width * hd.height * hd.bpp := by
+    calc hd.height = 1 * hd.height * 1 := by omega
+      _ ≤ hd.width * hd.height * hd.bpp := Nat.mul_le_mul (Nat.mul_le_mul hw (Nat.le_refl _)) hb
+  have hh8 : hd.height ≤ 8 * G + 7 := by omega
+  have t1 := pass_term_le hd.bpp ((hd.width + 7) / 8) ((hd.height + 7) / 8) hd.width hd.height (by omega) (by omega)
+  have t2 := pass_term_le hd.bpp ((hd.width + 3) / 8) ((hd.height + 7) / 8) hd.width hd.height (by omega) (by omega)
+  have t3 := pass_term_le hd.bpp ((hd.width + 3) / 4) ((hd.height + 3) / 8) hd.width hd.height (by omega) (by omega)
+  have t4 := pass_term_le hd.bpp ((hd.width + 1) / 4) ((hd.height + 3) / 4) hd.width hd.height (by omega) (by omega)
+  have t5 := pass_term_le hd.bpp ((hd.width + 1) / 2) ((hd.height + 1) / 4) hd.width hd.height (by omega) (by omega)
+  have t6 := pass_term_le hd.bpp (hd.width / 2) ((hd.height + 1) / 2) hd.width hd.height (by omega) (by omega)
+  have t7 := pass_term_le hd.bpp hd.width (hd.height / 2) hd.width hd.height (by omega) (by omega)
+  rw [hG] at t1 t2 t3 t4 t5 t6 t7
+  split <;> split <;> split <;> omega
+
+/-- either layout: a fixed multiple of the bytes present -/
+theorem alloc_bounded (hd : Ihdr) (len : Nat) (hw : 1 ≤ hd.width) (hb : 1 ≤ hd.bpp)
+    (hg : sizeGuard hd len = true) :
+    rawDataSize hd.width hd.height hd.bpp hd.interlaced ≤ 119 * (len * 1032) + 98 := by
+  cases hil : hd.interlaced
+  · have := alloc_bounded_progressive hd len hw hb hg hil
+    rw [hil] at this; omega
+  · have := alloc_bounded_interlaced hd len hw hb hg hil
+    rw [hil] at this; exact this
+
 /-- Non-vacuity: a concrete truncated fcTL is an error, a good IHDR is accepted, a zero width is not. -/
 example : (match seqNumberC ⟨[], [0, 0]⟩ with | .error .truncated => true | _ => false) = true ∧
     (parseIhdrC [0,0,0,5, 0,0,0,3, 8, 2, 0, 0, 1] none none).isOk = true ∧
